@@ -350,8 +350,14 @@ def _default_matches_schema(default: Any, schema: Schema) -> bool:
         or (schema == "bytes" and not isinstance(default, str))
         or (schema == "double" and not isinstance(_maybe_float(default), float))
         or (schema == "float" and not isinstance(_maybe_float(default), float))
-        or (schema == "int" and not isinstance(default, int))
-        or (schema == "long" and not isinstance(default, int))
+        or (
+            schema == "int"
+            and (not isinstance(default, int) or isinstance(default, bool))
+        )
+        or (
+            schema == "long"
+            and (not isinstance(default, int) or isinstance(default, bool))
+        )
     ):
         return False
     return True
